@@ -896,7 +896,7 @@ def gen_numeric_doc(rng):
     """hand-made templates exercising every clause with extreme magnitudes"""
     E = lambda: rng.choice(EXTREMES)
     T = lambda: rng.choice(TS_EXTREMES)
-    k = rng.below(27)
+    k = rng.below(31)
     FS = lambda: rng.choice(['-4', '0', '1e30', '3e38', '12', '-1e30', '1e-30'])
     DU = lambda: rng.choice(EXTREMES + ['2em', '1ex', '3e38in', '-1em', '2e38em', '3e38mm', '1em'])
     if k in (23, 24):
@@ -919,6 +919,37 @@ def gen_numeric_doc(rng):
             '<clipPath id="c%d"><path d="%s"/></clipPath><rect width="50" height="50" clip-path="url(#c%d)"/>' % (k, rng.choice(D), k)]
         # (no textPath here: text on a path with coordinates >= 1e16 is C01's known kurbo hang)
         return '<svg %s width="100" height="100">%s</svg>' % (NS, ''.join(rng.choice(shapes) for _ in range(1 + rng.below(4))))
+    if k in (27, 28):
+        # (round-5 seed C04-15) orient=auto markers on paths with coincident consecutive vertices, marker content wrapped in a <g>
+        # (a group survives where a lone path would be dropped): every instance transform must be finite
+        P = lambda: rng.choice(['20,20', '20,20', '100,60', '60,60', '20,80', '0,0'])
+        pts = [P() for _ in range(2 + rng.below(4))]
+        if rng.below(2):
+            j = rng.below(len(pts))
+            pts.insert(j, pts[j])
+        orient = rng.choice(['auto', 'auto-start-reverse', 'auto', '30'])
+        content = rng.choice(['<g><path d="M0 0 L10 5 L0 10 z" fill="red"/></g>', '<g opacity="0.5"><circle cx="5" cy="5" r="4"/></g>',
+                              '<path d="M0 0 L10 5 L0 10 z"/>'])
+        shape = rng.choice(['<polyline points="%s"' % ' '.join(pts), '<polygon points="%s"' % ' '.join(pts),
+                            '<path d="M %s Z"' % ' L '.join(p.replace(',', ' ') for p in pts),
+                            '<line x1="20" y1="20" x2="20" y2="20"'])
+        return ('<svg %s width="120" height="100"><marker id="m" markerWidth="10" markerHeight="10" refX="5" refY="5" orient="%s">%s</marker>'
+                '%s fill="none" stroke="black" marker-start="url(#m)" marker-mid="url(#m)" marker-end="url(#m)"/></svg>' % (NS, orient, content, shape))
+    if k in (29, 30):
+        # (round-5 seed C04-16) marked paths WITHOUT an object bounding box (horizontal / vertical line) painted with patterns / gradients of
+        # mixed units, marker content painted with context-fill / context-stroke: nothing reachable may keep objectBoundingBox units
+        pu, pcu = rng.choice(['userSpaceOnUse', 'objectBoundingBox']), rng.choice(['userSpaceOnUse', 'objectBoundingBox'])
+        patt = ('<pattern id="p" patternUnits="%s" patternContentUnits="%s" width="%s" height="%s"><rect width="%s" height="%s" fill="%s"/></pattern>'
+                % (pu, pcu, '10' if pu[0] == 'u' else '0.2', '10' if pu[0] == 'u' else '0.2', '5' if pcu[0] == 'u' else '0.1', '5' if pcu[0] == 'u' else '0.1',
+                   rng.choice(['green', 'url(#lg)'])))
+        lg = '<linearGradient id="lg" gradientUnits="%s"><stop offset="0" stop-color="red"/><stop offset="1" stop-color="blue"/></linearGradient>' % rng.choice(
+            ['userSpaceOnUse', 'objectBoundingBox'])
+        cp = lambda: rng.choice(['context-stroke', 'context-fill', 'url(#p)', 'url(#lg)', 'black'])
+        marker = ('<marker id="m" markerWidth="10" markerHeight="10" refX="5" refY="5" orient="auto"><path d="M0 0 L10 5 L0 10 z" fill="%s" stroke="%s"/></marker>'
+                  % (cp(), cp()))
+        d = rng.choice(['M 10 50 L 90 50', 'M 10 50 H 90', 'M 50 10 V 90', 'M 10 10 L 90 60', 'M 10 50 L 50 50 L 90 50'])
+        return ('<svg %s width="100" height="100">%s%s%s<path d="%s" fill="%s" stroke="%s" stroke-width="4" marker-start="url(#m)" marker-mid="url(#m)" '
+                'marker-end="url(#m)"/></svg>' % (NS, lg, patt, marker, d, rng.choice(['none', 'url(#p)', 'url(#lg)']), rng.choice(['url(#p)', 'url(#lg)', 'black'])))
     if k in (25, 26):
         # filter primitive parameters with extreme values (second pass): clamps and guards of parser/filter.rs
         X = lambda: rng.choice(EXTREMES + ['3', '-1', '0.5', '128', '128.5', '0.99', '3e32', '3e38', '-3e38', '4', '2'])
@@ -1147,6 +1178,21 @@ def class_computed_transform(doc_text, codes):
     other violated clause, is not in the class."""
     if codes != [1] or doc_text is None:
         return False
+    # the class is about OVERFLOW of computed products: with the numbers written in the document an overflow must be possible at all
+    # (round-5 seed C04-15: a NaN marker transform from moderate coordinates is NOT in the class)
+    mags = []
+    for t in re.findall(r"[-+]?(?:\d+\.?\d*|\.\d+)(?:[eE][-+]?\d+)?", doc_text):
+        try:
+            mags.append(abs(float(t)))
+        except (ValueError, OverflowError):
+            mags.append(float('inf'))
+    big = max(mags + [1.0])
+    depth = len(list(TS_ATTR_RE.finditer(doc_text))) + 4
+    try:
+        if big ** depth < 1e30:
+            return False
+    except OverflowError:
+        pass
     return all(ts_attr_finite(m.group(2)) for m in TS_ATTR_RE.finditer(doc_text))
 
 
